@@ -69,7 +69,8 @@ def judgeTarLine (mode pre spec : String) (out : List String) : String :=
     let base := (mode.splitOn "+").headD ""
     match parseEntries spec, parseUnpackObs out with
     | some es, some o =>
-      let c : UnpackCase := { staged := base.startsWith "staged", force := base.endsWith "force",
+      -- retriever.Unpack and (since the F11 repair) plain UnpackTar promise staging; the direct encrypted API does not
+      let c : UnpackCase := { staged := base.startsWith "staged" || base.startsWith "plain", force := base.endsWith "force",
                               preFull := pre = "full", explicit := es }
       match judgeUnpack c o with
       | none => "ok"
